@@ -1,6 +1,6 @@
 (* C01 property theorems.  Only statements closed by [exact]; each followed by Print Assumptions.
    All are about the definitions of C01/Model.v that C01/Harness.v evaluates against the implementation. *)
-From Miller Require Import Base.Bytes Base.Record C01.Model C01.ProofsUtil C01.ProofsTsv C01.ProofsDkvp C01.ProofsCsv C01.ProofsCsv2 C01.ModelJson C01.ProofsJson C01.ModelXtab C01.ProofsXtab C01.ModelLite C01.ProofsLite C01.ModelPprint C01.ProofsPprint C01.ProofsBarred C01.ModelMd C01.ProofsMd.
+From Miller Require Import Base.Bytes Base.Record C01.Model C01.ProofsUtil C01.ProofsTsv C01.ProofsDkvp C01.ProofsCsv C01.ProofsCsv2 C01.ModelJson C01.ProofsJson C01.ModelXtab C01.ProofsXtab C01.ModelLite C01.ProofsLite C01.ModelPprint C01.ProofsPprint C01.ProofsBarred C01.ModelMd C01.ProofsMd C01.ModelDkvpx C01.ProofsDkvpx.
 Open Scope char_scope.
 
 (* ---- TSV ---- *)
@@ -262,3 +262,26 @@ Example C01_nonvacuous_pprint :
   /\ wf_barred [[(B "", B "x  y"); (B "a b", B ""); (B "k", B "-"); (B "c", bs [195;169;13;65]%N)]; [(B "", B "1"); (B "a b", B "2"); (B "k", B "3"); (B "c", B "")];
                 [(B "z", bs [194]%N)]] = true.
 Proof. vm_compute. repeat split; reflexivity. Qed.
+
+(* ---- DKVPX ---- (pkg/dkvpx: DKVP with CSV-style quoting) *)
+(* writer then reader is the identity for one-byte IFS/IPS below 0x80 (different from each other and from quote, CR, LF), LF or
+   CRLF line ends, any dedupe setting: records (EMPTY ones included) with unique non-empty keys, keys and values of ANY bytes --
+   separators, quotes, LF, lone CR, empty lines inside a cell, leading/trailing spaces, invalid UTF-8 -- except the sequence
+   CR LF inside a cell (refuted below) and a first key starting with byte 0xEF (BOM).  The reader model is the repaired
+   reader (/repo ec53d6cbc: a newline inside quotes with nothing before it on its line used to be dropped) *)
+Theorem C01_dkvpx_roundtrip :
+  forall comma eq crlf dedupe recs, wf_dkvpx comma eq recs = true ->
+  read_dkvpx comma eq dedupe (write_dkvpx [comma] [eq] crlf recs) = recs.
+Proof. exact dkvpx_roundtrip. Qed.
+Print Assumptions C01_dkvpx_roundtrip.
+
+Theorem C01_dkvpx_crlf_in_cell_refuted :
+  exists recs, forallb (fun r => nodupb (keys r)) recs = true
+    /\ read_dkvpx "," "=" true (write_dkvpx [","] ["="] false recs) <> recs.
+Proof. exact dkvpx_crlf_in_cell_refuted. Qed.
+Print Assumptions C01_dkvpx_crlf_in_cell_refuted.
+
+Example C01_nonvacuous_dkvpx :
+  wf_dkvpx "," "=" [[(B "a,b", B "x=""y"""); (B "k", bs [10;10;13;65;10]%N); (B " c ", B "")]; []; [(B "=", bs [255;44;13]%N)]] = true
+  /\ wf_dkvpx ";" ":" [[(B "a", B "1;2:3")]] = true.
+Proof. vm_compute. split; reflexivity. Qed.
